@@ -1390,6 +1390,8 @@ func (tx *tx) commit() error {
 		return nil
 	}
 	defer func() { tx.tx, tx.txrrw = nil, nil }()
+	verifPoint("before-commit")
+	defer verifPoint("after-commit")
 	return tx.tx.Commit()
 }
 
